@@ -19,6 +19,7 @@ import (
 	"pgregory.net/rapid"
 
 	"verif/kit"
+	"verif/refl"
 )
 
 // ---------------------------------------------------------------- case
@@ -35,6 +36,13 @@ type C07Config struct {
 	MaxDefragUTXOs     int  `json:"max_defrag_utxos"`
 	ShortReservation   bool `json:"short_reservation"` // 50 ms instead of 3 h
 	Genesis            bool `json:"genesis"`           // the wallet key owns six genesis outputs
+	// ReservationMs, if > 0, is the reservation duration in milliseconds (25,
+	// 50 or 100); 0 means 3 h unless ShortReservation (= 50 ms) is set.
+	ReservationMs int `json:"reservation_ms,omitempty"`
+	// WalletActor: 0 = a key of its own (or actor 2 if Genesis), 1 = actor 2
+	// (owns genesis siacoins and siafunds), 2 = actor 0, whose address is also
+	// the network's foundation address (receives the subsidies).
+	WalletActor int `json:"wallet_actor,omitempty"`
 	// Order selects the (deterministic) order in which the store lists the
 	// unspent outputs; the reference store lists them in map order.
 	Order int `json:"order,omitempty"`
@@ -59,6 +67,12 @@ type Op struct {
 	// Lag: (mine, reorg) the wallet is not fed the new blocks; it stays at its
 	// own tip until a later non-lagging chain op or a "sync" op
 	Lag bool `json:"lag,omitempty"`
+	// Extra: (mine) transactions of actor 1 that the kit's builder adds to the
+	// first mined block next to the pool: 0 direct payment to the wallet, 1
+	// siafund spend with the claim paid to the wallet, 2 contract with the wallet
+	// as the other party (payouts to the wallet), 3 operation on an existing
+	// contract (revision / proof / renewal / expiry)
+	Extra []int `json:"extra,omitempty"`
 	// Sizes: payment output sizes (indices into paySizes)
 	Sizes []int `json:"sizes,omitempty"`
 }
@@ -76,6 +90,19 @@ var paySizes = []types.Currency{
 
 const shortReservation = 50 * time.Millisecond
 
+// reservation returns the configured reservation duration.
+func (c C07Config) reservation() time.Duration {
+	switch {
+	case c.ReservationMs > 0:
+		return time.Duration(clampInt(c.ReservationMs, 5, 1000)) * time.Millisecond
+	case c.ShortReservation:
+		return shortReservation
+	}
+	return 3 * time.Hour
+}
+
+func (c C07Config) short() bool { return c.reservation() < time.Hour }
+
 func genConfig(t *rapid.T) C07Config {
 	c := C07Config{
 		Era:      rapid.IntRange(0, 3).Draw(t, "era"),
@@ -90,7 +117,18 @@ func genConfig(t *rapid.T) C07Config {
 		c.MaxInputsForDefrag = rapid.IntRange(1, 100).Draw(t, "max-inputs-for-defrag")
 		c.MaxDefragUTXOs = rapid.IntRange(0, 20).Draw(t, "max-defrag-utxos")
 	}
-	c.ShortReservation = rapid.IntRange(0, 3).Draw(t, "short-reservation") == 0
+	switch rapid.IntRange(0, 7).Draw(t, "reservation") {
+	case 0:
+		c.ReservationMs = 25
+	case 1:
+		c.ShortReservation = true // 50 ms
+	case 2:
+		c.ReservationMs = 100
+	}
+	c.WalletActor = rapid.IntRange(0, 2).Draw(t, "wallet-actor")
+	if c.WalletActor > 0 {
+		c.Genesis = true
+	}
 	return c
 }
 
@@ -105,7 +143,7 @@ func genOp(t *rapid.T, cfg C07Config) Op {
 		w int
 	}
 	kinds := []wk{{"mine", 4}, {"pay", 4}, {"fund", 11}, {"release", 2}, {"submit", 6}, {"redist", 2}, {"split", 2}, {"reorg", 1}, {"restart", 2}, {"sync", 2}, {"topup", 2}}
-	if cfg.ShortReservation {
+	if cfg.short() {
 		kinds = append(kinds, wk{"expire", 2})
 	}
 	total := 0
@@ -130,6 +168,10 @@ func genOp(t *rapid.T, cfg C07Config) Op {
 		op.N = rapid.IntRange(1, 3).Draw(t, "blocks")
 		op.B = rapid.IntRange(0, 5).Draw(t, "target") // 0,1,2: wallet; 3,4: payer; 5: payer, pool left alone
 		op.Lag = rapid.IntRange(0, 3).Draw(t, "lag") == 0
+		if cfg.WalletActor > 0 && rapid.IntRange(0, 2).Draw(t, "extras") == 0 {
+			op.Extra = rapid.SliceOfN(rapid.IntRange(0, 3), 1, 3).Draw(t, "extra")
+			op.V2 = v2Likely
+		}
 	case "pay":
 		op.Sizes = genSizes(t, 12)
 		op.V2 = v2Likely
@@ -237,10 +279,15 @@ type world struct {
 	cm      *chain.Manager
 	syncer  *testutil.MockSyncer
 
-	wkey  types.PrivateKey
-	waddr types.Address
-	ws    *testutil.EphemeralWalletStore
-	w     *wallet.SingleAddressWallet
+	wkey   types.PrivateKey
+	waddr  types.Address
+	wactor int // index of the wallet's key among kit.Actors, -1 if it is none of them
+	// ledgers: reference ledger of every block the harness built (needed to
+	// let the kit's transaction builder add contracts, siafund spends and direct
+	// payments of actor 1 to the mined blocks)
+	ledgers map[types.BlockID]*refl.Ledger
+	ws      *testutil.EphemeralWalletStore
+	w       *wallet.SingleAddressWallet
 
 	// ts/tw: a second store for the wallet's address that is fed every chain
 	// change at once; it is the reference for "really unspent at the chain's
@@ -316,10 +363,7 @@ func (c C07Config) netSpec() kit.NetSpec {
 }
 
 func (c C07Config) options() []wallet.Option {
-	d := 3 * time.Hour
-	if c.ShortReservation {
-		d = shortReservation
-	}
+	d := c.reservation()
 	return []wallet.Option{
 		wallet.WithDefragThreshold(c.DefragThreshold),
 		wallet.WithMaxInputsForDefrag(c.MaxInputsForDefrag),
@@ -344,19 +388,21 @@ func newWorld(cfg C07Config, cs *kit.CaseStats) (*world, error) {
 	}
 	wd.dbs = dbs
 	wd.cm = chain.NewManager(dbs, tipState)
-	if cfg.Genesis {
-		wd.wkey = kit.Actors[2].SK
-	} else {
-		wd.wkey = c07WalletKey()
+	gl := refl.Genesis(wd.net, wd.genesis)
+	wd.ledgers = map[types.BlockID]*refl.Ledger{gl.Index().ID: gl}
+	switch {
+	case cfg.WalletActor == 2:
+		wd.wkey, wd.wactor = kit.Actors[0].SK, 0
+	case cfg.WalletActor == 1 || cfg.Genesis:
+		wd.wkey, wd.wactor = kit.Actors[2].SK, 2
+	default:
+		wd.wkey, wd.wactor = c07WalletKey(), -1
 	}
 	wd.waddr = types.StandardUnlockHash(wd.wkey.PublicKey())
 	wd.pkey = kit.Actors[3].SK
 	wd.paddr = kit.Actors[3].Addr
 	wd.other = kit.Actors[1].Addr
-	wd.dur = 3 * time.Hour
-	if cfg.ShortReservation {
-		wd.dur = shortReservation
-	}
+	wd.dur = cfg.reservation()
 	wd.ws = testutil.NewEphemeralWalletStore()
 	wd.ps = testutil.NewEphemeralWalletStore()
 	wd.ts = testutil.NewEphemeralWalletStore()
@@ -968,16 +1014,79 @@ func (wd *world) classifyState(v view, t0, t1 time.Time) {
 
 // ---------------------------------------------------------------- blocks
 
-func (wd *world) mineOn(cs consensus.State, miner types.Address, withPool bool, tsExtra time.Duration) types.Block {
+// ledgerFor returns the reference ledger of a block the manager stores,
+// building it (and its ancestors') on demand through core.
+func (wd *world) ledgerFor(id types.BlockID) (*refl.Ledger, error) {
+	if l, ok := wd.ledgers[id]; ok {
+		return l, nil
+	}
+	b, ok := wd.cm.Block(id)
+	if !ok {
+		return nil, fmt.Errorf("INFRA: block %v unknown to the manager", id)
+	}
+	pl, err := wd.ledgerFor(b.ParentID)
+	if err != nil {
+		return nil, err
+	}
+	l, err := pl.Apply(b, nil)
+	if err != nil {
+		return nil, fmt.Errorf("INFRA: reference ledger rejects stored block %v: %w", id, err)
+	}
+	wd.ledgers[id] = l
+	return l, nil
+}
+
+// extraTxns lets the kit's builder make transactions of actor 1 that involve
+// the wallet's address without going through the pool: direct payments, a
+// siafund spend whose claim goes to the wallet, contracts with the wallet as
+// counterparty and operations on them. They land in the same block as the
+// wallet's own pooled spends (and, when the wallet mines, its miner payout).
+func (wd *world) extraTxns(parent types.BlockID, op Op) ([]types.Transaction, []types.V2Transaction, error) {
+	if len(op.Extra) == 0 || wd.wactor < 0 {
+		return nil, nil, nil
+	}
+	l, err := wd.ledgerFor(parent)
+	if err != nil {
+		return nil, nil, err
+	}
+	bb := kit.NewBlockBuilder(l)
+	for i, x := range op.Extra {
+		in := kit.Intent{Who: 1, To: wd.wactor, A: wd.wactor, Pick: i, Amt: 2 + i, B: i, V2: op.V2}
+		switch modInt(x, 4) {
+		case 0:
+			in.Kind = "pay"
+		case 1:
+			in.Kind, in.To = "sf", 1
+		case 2:
+			in.Kind = "form"
+		default:
+			in.Kind = "fcop"
+		}
+		if bb.Add(in) {
+			wd.cs.Class("mine-extra=" + in.Kind)
+		}
+	}
+	return bb.Txns, bb.V2Txns, nil
+}
+
+func (wd *world) mineOn(cs consensus.State, miner types.Address, withPool bool, tsExtra time.Duration, extra ...any) types.Block {
 	var txns []types.Transaction
 	var v2txns []types.V2Transaction
+	for _, e := range extra {
+		switch x := e.(type) {
+		case []types.Transaction:
+			txns = append(txns, x...)
+		case []types.V2Transaction:
+			v2txns = append(v2txns, x...)
+		}
+	}
 	h := cs.Index.Height + 1
 	if withPool {
 		if h < wd.net.HardforkV2.RequireHeight {
-			txns = wd.cm.PoolTransactions()
+			txns = append(wd.cm.PoolTransactions(), txns...)
 		}
 		if h >= wd.net.HardforkV2.AllowHeight {
-			v2txns = wd.cm.V2PoolTransactions()
+			v2txns = append(wd.cm.V2PoolTransactions(), v2txns...)
 		}
 	}
 	ts := cs.PrevTimestamps[0].Add(time.Second + tsExtra)
@@ -996,7 +1105,36 @@ func (wd *world) opMine(op Op) error {
 	}
 	n := clampInt(op.N, 1, 3)
 	for i := 0; i < n; i++ {
-		b := wd.mineOn(wd.cm.TipState(), miner, withPool, 0)
+		var x1 []types.Transaction
+		var x2 []types.V2Transaction
+		if i == 0 {
+			var err error
+			if x1, x2, err = wd.extraTxns(wd.cm.Tip().ID, op); err != nil {
+				return err
+			}
+		}
+		b := wd.mineOn(wd.cm.TipState(), miner, withPool, 0, x1, x2)
+		if len(x1)+len(x2) > 0 {
+			ownSpend := false
+			for _, t := range b.Transactions[:len(b.Transactions)-len(x1)] {
+				for _, in := range t.SiacoinInputs {
+					ownSpend = ownSpend || in.UnlockConditions.UnlockHash() == wd.waddr
+				}
+			}
+			if b.V2 != nil {
+				for _, t := range b.V2.Transactions[:len(b.V2.Transactions)-len(x2)] {
+					for _, in := range t.SiacoinInputs {
+						ownSpend = ownSpend || in.Parent.SiacoinOutput.Address == wd.waddr
+					}
+				}
+			}
+			if ownSpend {
+				wd.cs.Class("mine=block-with-own-spend-and-foreign-transactions-for-the-wallet")
+				if miner == wd.waddr {
+					wd.cs.Class("mine=block-with-own-spend,-own-miner-payout-and-foreign-transactions")
+				}
+			}
+		}
 		if len(b.Transactions) > 0 || (b.V2 != nil && len(b.V2.Transactions) > 0) {
 			wd.cs.Class("mine=confirms-pool")
 		}
@@ -1101,6 +1239,15 @@ func modInt(i, n int) int {
 
 var oneH = types.NewCurrency64(1)
 
+// fraction returns v·num/den without overflowing for very large v (the
+// foundation subsidy of the test network is close to 2^120 hastings).
+func fraction(v types.Currency, num, den uint64) types.Currency {
+	if _, overflow := v.Mul64WithOverflow(num); overflow {
+		return v.Div64(den).Mul64(num)
+	}
+	return v.Mul64(num).Div64(den)
+}
+
 func (wd *world) opPay(op Op) error {
 	var outs []types.SiacoinOutput
 	var total types.Currency
@@ -1174,7 +1321,7 @@ func fundAmount(op Op, v view) (types.Currency, string) {
 	case 1:
 		return oneH, "one-hasting"
 	case 2:
-		a := base.Mul64(f).Div64(1000)
+		a := fraction(base, f, 1000)
 		if a.IsZero() {
 			a = oneH
 		}
@@ -1198,7 +1345,7 @@ func fundAmount(op Op, v view) (types.Currency, string) {
 		if len(s) == 0 {
 			return oneH, "one-hasting"
 		}
-		a := s[0].SiacoinOutput.Value.Mul64(f).Div64(1000)
+		a := fraction(s[0].SiacoinOutput.Value, f, 1000)
 		if a.IsZero() {
 			a = oneH
 		}
@@ -1513,7 +1660,7 @@ func (wd *world) opTopUp(op Op, step int) error {
 	if op.U {
 		base = base.Add(pre.sumE)
 	}
-	amount := base.Mul64(uint64(clampInt(op.F, 1, 999))).Div64(4000)
+	amount := fraction(base, uint64(clampInt(op.F, 1, 999)), 4000)
 	if amount.IsZero() {
 		amount = oneH
 	}
@@ -1655,7 +1802,7 @@ func (wd *world) opRelease(op Op) error {
 }
 
 func (wd *world) opExpire(step int) error {
-	if !wd.cfg.ShortReservation {
+	if !wd.cfg.short() {
 		return nil
 	}
 	var latest time.Time
@@ -2170,11 +2317,12 @@ func runC07(c C07Case, cs *kit.CaseStats) error {
 	}
 	defer wd.close()
 	cs.Classf("era=%d", modInt(c.Config.Era, 4))
-	if c.Config.ShortReservation {
-		cs.Class("reservation=50ms")
+	if c.Config.short() {
+		cs.Classf("reservation=%v", c.Config.reservation())
 	} else {
 		cs.Class("reservation=3h")
 	}
+	cs.Classf("wallet-key=%d", wd.wactor)
 	if c.Config.nonDefaultDefrag() {
 		cs.Class("defrag-config=non-default")
 	} else {
